@@ -124,6 +124,11 @@ def build_jobs():
     shaders["gaps.wgsl"] = "\n".join(
         ["@group(%d) @binding(%d) var<uniform> a%d: vec4<f32>;" % (g, k, k)
          for k, g in enumerate([7, 2, 9, 4, 0, 12])] + ["@compute @workgroup_size(1) fn main() { }"])
+    # a shader on which the generator panics (Rust keyword as member name: recorded finding):
+    # a panic in one call must leave every other call of the process as it was
+    shaders["kwmember.wgsl"] = ("struct KwMember { in: vec4<f32>, dyn: f32 }\n@group(0) @binding(0) "
+                                "var<storage, read_write> buf: KwMember;\n@compute "
+                                "@workgroup_size(1) fn main() { buf.dyn = buf.in.x; }\n")
     shaders["manyerrors.wgsl"] = "fn a() -> f32 { return missing1; }\nfn b() { let x: u32 = 1.5; }\n" \
         "@compute @workgroup_size(1) fn main() { undefined_fn(); }\n"
     shaders["invalid.wgsl"] = "@group(0) @binding(0) var<uniform> u: vec4<f32>;\n" \
